@@ -74,6 +74,10 @@ SEEDS = {
  "C12d": dict(property="C12", needs="tracker dead + the first tracked operation afterwards is starting a loky process + no free descriptor number below the old tracker fd: getfd() skips the liveness probe, the child is told a descriptor it never inherited"),
  "C14d": dict(property="C14", needs="another thread/process operating on the Event between the acquire(False) and the release of is_set(), which no longer holds the event's lock: wait() returns False on a set event, clear()/set() are lost or doubled"),
  "C15d": dict(property="C15", needs="a reducer given (job_reducers / result_reducers / dumps(reducers=)) for a type loky has its own reducer for (functools.partial, MethodType, method descriptors): loky's table is applied after the user's and wins"),
+ "C13d": dict(property="C13", needs="loky_init_main start method + a main module creating a loky primitive at import time + the worker tree killed (kill_workers / broken pool): the main fix-up now runs before the inherited tracker fd is installed, the semaphore is registered with a private tracker that dies with the tree"),
+ "C16d": dict(property="C16", needs="wrapped object (or instances of a wrapped class) defining __slots__ without __getstate__ + an enclosing plain pickler using protocol 0 or 1: the payload is now cloudpickled with the outer protocol"),
+ "C17d": dict(property="C17", needs="cpu_count(only_physical_cores=True) first called without any limit below the OS count (probe cached), then a limit imposed (LOKY_MAX_CPU_COUNT, affinity, cgroup) and the call repeated: the new fast path returns the cached physical count before any limit is evaluated"),
+ "C18d": dict(property="C18", needs="executor / LokyProcess created with a non-empty env= mapping, a variable of the parent's environment changed or deleted after the first spawn, then another spawn (respawn, resize): the overlay is merged in place into the caller's dict, later workers get a stale snapshot"),
  "C20b": dict(property="C20", needs="kill-type lifecycle + worker with descendants one of which vanishes during the kill: kill_process_tree returns early, the worker is neither killed nor joined (child, fd, semaphore accumulate)"),
 }
 DETECTED = json.load(open(os.path.join(ROOT, "seeded", "detected.json"))) if os.path.exists(os.path.join(ROOT, "seeded", "detected.json")) else {}
